@@ -27,8 +27,24 @@ def module_state_writes(mod: ModuleInfo, fns: list[FuncInfo]) -> list[tuple[ast.
             if isinstance(n, (ast.Global, ast.Nonlocal)):
                 globals_decl |= set(n.names)
                 out.append((n, fi.qualname, f'{type(n).__name__.lower()} {", ".join(n.names)}'))
+        # locals that are just another name of a module-level container (`d = _TABLE`): writes through them are writes to it
+        alias: dict[str, str] = {}
+        for n in walk_no_nested(fi.node):
+            if isinstance(n, ast.Assign) and len(n.targets) == 1 and isinstance(n.targets[0], ast.Name) and isinstance(n.value, ast.Name) and \
+                    n.value.id in modnames and n.value.id not in locs and isinstance(mod.env.get(n.value.id), (dict, list, set, bytearray)):
+                alias[n.targets[0].id] = n.value.id
         for n in walk_no_nested(fi.node):
             # X.attr = v / X[k] = v / del on a module-level object or a module
+            if isinstance(n, (ast.Assign, ast.AugAssign, ast.AnnAssign, ast.Delete)):
+                for t in (n.targets if isinstance(n, (ast.Assign, ast.Delete)) else [n.target]):
+                    b0 = t
+                    while isinstance(b0, (ast.Attribute, ast.Subscript)):
+                        b0 = b0.value
+                    if isinstance(t, (ast.Attribute, ast.Subscript)) and isinstance(b0, ast.Name) and b0.id in alias:
+                        out.append((n, fi.qualname, f'store into module-level object `{alias[b0.id]}` through its alias `{b0.id}`'))
+            if isinstance(n, ast.Call) and isinstance(n.func, ast.Attribute) and n.func.attr in MUTATORS and \
+                    isinstance(n.func.value, ast.Name) and n.func.value.id in alias:
+                out.append((n, fi.qualname, f'mutating call on module-level object `{alias[n.func.value.id]}` through its alias `{n.func.value.id}`'))
             if isinstance(n, (ast.Assign, ast.AugAssign, ast.AnnAssign, ast.Delete)):
                 tg = n.targets if isinstance(n, (ast.Assign, ast.Delete)) else [n.target]
                 for t in tg:
